@@ -167,7 +167,7 @@ theorem disc_val (hlen : ∀ x, (H x).length = 16) : ∀ (v : PyVal), Disc H v
       | seq j' k' ys =>
         have hkk : k = k' := by
           simp only [inG0, Bool.and_eq_true, bne_iff_ne, ne_eq] at gv gw
-          cases k <;> cases k' <;> simp [kindOf] at hk' <;> first | rfl | exact absurd rfl gv.1 | exact absurd rfl gw.1
+          cases k <;> cases k' <;> first | rfl | exact absurd gv.1 (by decide) | exact absurd gw.1 (by decide) | (simp [kindOf] at hk')
         subst hkk
         obtain ⟨cps, hpx, e1⟩ := pre_seq_inv hp
         obtain ⟨cqs, hpy, e2⟩ := pre_seq_inv hq
